@@ -465,7 +465,7 @@ def repo_fn_calls(files, timeout=300):
     out = os.path.join(d, "traces.json")
     env = dict(os.environ, VERIF_REC_OUT=out, PYTHONPATH=os.path.dirname(os.path.abspath(__file__)) + os.pathsep + src, PYTHONHASHSEED="0")
     try:
-        p = subprocess.run([sys.executable, "-m", "pytest", "-q", "-p", "no:cacheprovider", "-p", "pytest_record_plugin", "--timeout=600"] + list(files),
+        p = subprocess.run([sys.executable, "-m", "pytest", "-q", "-p", "no:cacheprovider", "-p", "pytest_world_plugin", "--timeout=600"] + list(files),
                            cwd=root, env=env, stdout=subprocess.PIPE, stderr=subprocess.STDOUT, text=True, timeout=timeout)
         if not os.path.exists(out + ".fn.json"):
             raise MachineryError("the recording plugin produced no function calls\n" + p.stdout[-1500:])
@@ -476,8 +476,8 @@ def repo_fn_calls(files, timeout=300):
 
 
 def repo_test_traces(focus, timeout=600):
-    """Run the repository's own test-suite under the recording plugin (harness/pytest_record_plugin.py)
-    and return the recorded batch (one trace per Converter instance the tests created)."""
+    """Run the repository's own test-suite under the recording plugin (harness/pytest_world_plugin.py)
+    and return the recorded batch (one trace per test function: every converter it creates, every operation and query)."""
     import subprocess
     import sys
     src = os.environ.get("CURIES_SRC", "/repo/src")
@@ -486,7 +486,7 @@ def repo_test_traces(focus, timeout=600):
     out = os.path.join(d, "traces.json")
     env = dict(os.environ, VERIF_REC_OUT=out, PYTHONPATH=os.path.dirname(os.path.abspath(__file__)) + os.pathsep + src, PYTHONHASHSEED="0")
     try:
-        p = subprocess.run([sys.executable, "-m", "pytest", "-q", "-p", "no:cacheprovider", "-p", "pytest_record_plugin", "--timeout=900", "tests"],
+        p = subprocess.run([sys.executable, "-m", "pytest", "-q", "-p", "no:cacheprovider", "-p", "pytest_world_plugin", "--timeout=900", "tests"],
                            cwd=root, env=env, stdout=subprocess.PIPE, stderr=subprocess.STDOUT, text=True, timeout=timeout)
         if not os.path.exists(out):
             raise MachineryError("the recording plugin produced no traces\n" + p.stdout[-1500:])
